@@ -78,10 +78,10 @@ func conclude(p *Prog, prop, tier, outDir, verifDir string, obs []Ob, ran []stri
 	samples := []any{}
 	seenRule := map[string]int{}
 	for _, o := range mine {
-		if seenRule[o.Rule] < 3 || o.Status != Discharged {
-			samples = append(samples, o)
-			seenRule[o.Rule]++
-		}
+		// every obligation is listed: the instance space is small, and a reader of the evidence
+		// should see exactly which constructs were judged and why each was discharged
+		samples = append(samples, o)
+		seenRule[o.Rule]++
 	}
 	info := propInfo[prop]
 	cov := map[string]any{
